@@ -533,3 +533,66 @@ def body_custom_converters(which: int, i: int, pos: bool) -> int:
     if not eqv(x.n, y.n):
         return 2
     return 0
+
+
+# ------------------------------------------------------------------ a field that cannot be supplied still takes its default
+
+class K7(PaneBase, in_format=('struct', 'tuple')):
+    """init=False fields: one with a plain default, one with a default factory, declared between supplied fields"""
+    x: int = 0
+    tag: str = field(init=False, default='t')
+    cache: List[int] = field(init=False, default_factory=lambda: [7])
+    y: int = 1
+
+    def __post_init__(self):
+        HOOK[0] += 1
+
+
+make_converter(K7)
+
+
+@obligation(pre="0 <= path <= 3 and 0 <= n <= 2", witnesses=(0,), timeout=200)
+def body_k7_init_false(path: int, n: int, i: int, j: int) -> int:
+    """init=False fields take their default / a fresh product of their default factory on every path (constructor by keyword, by position, mapping data, sequence data), and the instance is usable (repr, ==, dict)"""
+    kw = {}
+    if n >= 1:
+        kw['x'] = i
+    if n >= 2:
+        kw['y'] = j
+    args = [kw[k] for k in ('x', 'y') if k in kw]
+    try:
+        if path == 0:
+            a, b = K7(**kw), K7(**kw)
+        elif path == 1:
+            a, b = K7(*args), K7.make_unchecked(*args)
+        elif path == 2:
+            a, b = K7.from_data(dict(kw)), K7.from_data(dict(kw))
+        else:
+            a, b = K7.from_data(list(args)), K7.from_data(tuple(args))
+        for inst in (a, b):
+            if inst.tag != 't' or not eqv(inst.cache, [7]):
+                return 4
+            if inst.x != (i if n >= 1 else 0) or inst.y != (j if n >= 2 else 1):
+                return 1
+            if set(inst.dict(set_only=True).keys()) != set(kw.keys()):
+                return 6
+        if a.cache is b.cache:
+            return 5
+        if not (a == b) or len(repr(a)) == 0:
+            return 2
+        a.cache.append(1)
+        c = K7(**kw)
+        if not eqv(c.cache, [7]):
+            return 5
+    except Exception as e:
+        if crosshair_exc(e):
+            raise
+        return 10
+    return 0
+
+
+for _p in range(4):
+    try:
+        body_k7_init_false(_p, 2, 1, 2)
+    except Exception:
+        pass
